@@ -109,13 +109,27 @@ def bounded_standin(laws, seed, tier):
     return out
 
 
-def bundle(repo, tier, seed, laws, classes=None, extra_vcs=(), extra_sanity=(), explanation="", bounded=True):
+def bundle(repo, tier, seed, laws, classes=None, extra_vcs=(), extra_sanity=(), explanation="", bounded=True, crosscheck=False):
     r = run(repo, laws, classes)
     regions = [f"{c}: {fid} {text}" for c, ents in r["regions"].items() for fid, text in ents]
     from harness import opt_validate
     vfails, vcounts = opt_validate.validate(seed, depth=2, sample=300 if tier == "quick" else 8000)
     if vfails:
         raise RuntimeError(f"OptTheory clause failed its bounded validation against confectioner: {vfails[0]!r} - no proof using it can be trusted")
+    from harness import tk_validate
+    tkf, tkn = tk_validate.validate()
+    if tkf:
+        raise RuntimeError(f"assumed contract of resolve/_templated_keys failed its bounded validation on the real functions: {tkf[0]!r}")
+    xc = {"classes": [], "checked": 0}
+    if crosscheck:
+        from harness import crosscheck as xcheck
+        for c in xcheck.CLASSES:
+            if classes is None or c in (classes or READY):
+                mm, nn = xcheck.crosscheck(c, seed, 4 if tier == "quick" else 40, repo)
+                xc["classes"].append(c)
+                xc["checked"] += nn
+                for m in mm:
+                    r["undecided"].append((f"{m[0]}.{m[1]}", [f"ENGINE cross-check mismatch against CPython: {m[3]}"]))
     bs = bounded_standin(laws, seed, tier) if bounded else None
     return {
         "bounded": [{k: v for k, v in bs.items() if k != "witnesses"}] if bs else [], "bounded_witnesses": bs["witnesses"] if bs else [],
@@ -128,5 +142,7 @@ def bundle(repo, tier, seed, laws, classes=None, extra_vcs=(), extra_sanity=(), 
                         "classes NOT under contract (out of the verifier's reach today): Map, Template (bounded stand-in on the real code, labelled bounded), Namespace, _DatasetClassMeta (no claim)",
                         "private helper classes are verified by inlining only: " + ", ".join(INLINED_ONLY)] + [f"proved outside region: {x}" for x in regions],
         "explanation": explanation,
-        "samples": [{"opt_theory_validation": "every OptTheory clause evaluated with has/get/mix/... interpreted by the real confectioner", "cases": vcounts, "failures": 0}],
+        "engine_crosscheck": xc,
+        "samples": [{"resolve_and_templated_keys_contract_validation": "clauses of theory.resolve_axioms / tk_contract_axioms evaluated on the real confectioner.resolve and labrea.option._templated_keys",
+                     "cases": tkn, "failures": 0}, {"opt_theory_validation": "every OptTheory clause evaluated with has/get/mix/... interpreted by the real confectioner", "cases": vcounts, "failures": 0}],
     }
